@@ -39,6 +39,7 @@ def part_a(ctx):
     cov = ctx.coverage
     nprog = ctx.pick(120, 1200)
     cap = ctx.pick(25, 120)
+    src_of, lay_of = {}, {}
     impl_terms, ref_terms, ref_meta, trees = [], [], [], []
     bad = []
     for i in range(nprog):
@@ -48,6 +49,8 @@ def part_a(ctx):
         trees.append((body, scope))
         try:
             src, reads, binds, obs = rc.analyse_program(ctx, body, scope)
+            src_of[id(body)] = src
+            lay_of[id(body)] = obs.get('layout_seed')
         except Exception as e:
             ctx.violation('supp raised %s: %s on a generated program' % (type(e).__name__, e),
                           {'kind': 'crash', 'source': pygen.render_plain(body, scope)[0]})
@@ -78,7 +81,7 @@ def part_a(ctx):
             continue
         seen.add((i, what))
         body, scope = trees[i]
-        ctx.violation(what, {'kind': 'direct-A', 'scope': scope, 'tree': body, 'source': pygen.render_plain(body, scope)[0], 'decisions': eff})
+        ctx.violation(what, {'kind': 'direct-A', 'scope': scope, 'tree': body, 'source': src_of.get(id(body)) or pygen.render_plain(body, scope)[0], 'layout_seed': lay_of.get(id(body)), 'decisions': eff})
     bad_i = ctx.run_cases(rc.IMPORTS, rc.CHECK_PRELUDE, 'check_impl', impl_terms, shard=150)
     bad_r = ctx.run_cases(rc.IMPORTS, rc.CHECK_PRELUDE, 'check_refX', ref_terms, shard=400)
     bad_v = ctx.run_cases(rc.IMPORTS, rc.CHECK_PRELUDE, 'check_visible_instance', ref_terms, shard=400)
@@ -108,6 +111,8 @@ def part_b(ctx):
     os.makedirs(d, exist_ok=True)
     open(os.path.join(d, 'genlib.py'), 'w').write(scopegen.LIB_SRC)
     open(os.path.join(d, 'genhelp.py'), 'w').write(scopegen.GENHELP_SRC)
+    open(os.path.join(d, 'gencyca.py'), 'w').write(scopegen.CYC_A_SRC)
+    open(os.path.join(d, 'gencycb.py'), 'w').write(scopegen.CYC_B_SRC)
     sys.path.insert(0, d)
     try:
         proj = Project([d])
@@ -169,7 +174,7 @@ def part_b(ctx):
         cov['B_successful_reads_checked'] = ok_reads
     finally:
         sys.path.remove(d)
-        for m in ('genlib', 'genhelp'):
+        for m in ('genlib', 'genhelp', 'gencyca', 'gencycb'):
             sys.modules.pop(m, None)
 
 
